@@ -11,6 +11,7 @@ rounds.  SCRAM's cryptography is not modelled (the mechanism is an arbitrary sou
 `mechNext` events): what is proved about the mechanism is proved for PLAIN only.
 -/
 import KafkaVerif.Model.Auth
+import KafkaVerif.Model.AuthPlainGen
 import KafkaVerif.Spec.SaslPlain
 
 namespace KV.C18
@@ -421,6 +422,25 @@ theorem unsound_mechanism_counterexample :
 /-- `sasl/plain` builds the RFC 4616 message with an empty authorization identity -/
 theorem plain_format (user pass : Bytes) : plainStart user pass = plainMessage [] user pass := by
   simp [plainStart, plainMessage]
+
+/-- the same for the format string as re-extracted from sasl/plain/plain.go on this run -/
+theorem plain_format_extracted (user pass : Bytes) :
+    plainStartGen user pass = some (plainMessage [] user pass) := by
+  simp [plainStartGen, Gen.plainFmt, renderPlain, plainMessage]
+
+/-- `Mechanism.Next` as extracted reports `completed` at once, as the model's `plainNext` does -/
+theorem plain_next_extracted : Gen.plainNextCompleted = (plainNext []).1 := by decide
+
+/-- the order of the authentication-relevant calls in the four functions the model follows, as
+re-extracted on this run: dial → wrap → authenticate → (close on error); handshake → Start →
+authenticate → Next; Transport: dial → (deferred close) → ApiVersions round trip → versions →
+authenticate → only then the connection's `run` loop is started. -/
+theorem call_order_extracted :
+    Gen.dialerConnectCalls = ["dialContext", "NewConnWith", "authenticateSASL", "Close"] ∧
+    Gen.dialerAuthCalls = ["saslHandshake", "Start", "saslAuthenticate", "Next"] ∧
+    Gen.transportConnectCalls = ["dial", "Close", "RoundTrip", "SetVersions", "authenticateSASL", "run"] ∧
+    Gen.transportAuthCalls = ["saslHandshakeRoundTrip", "Start", "saslAuthenticateRoundTrip", "Next"] := by
+  decide
 
 theorem splitNul_append (u rest : Bytes) (hu : ∀ b ∈ u, b ≠ 0) : splitNul (u ++ 0 :: rest) = some (u, rest) := by
   induction u with
